@@ -533,10 +533,10 @@ func c19dCanon(attrs []bgp.PathAttributeInterface) string {
 	for _, a := range attrs {
 		switch v := a.(type) {
 		case *bgp.PathAttributeMpReachNLRI:
+			// the link-local next hop is not part of the form: gobgp's table drops it on input
+			// (table.ProcessMessage rebuilds MP_REACH_NLRI from the global next hop only), so the
+			// API side never has it while raw wire bytes in BMP/MRT do
 			nh = v.Nexthop.Unmap().String()
-			if v.LinkLocalNexthop.IsValid() {
-				nh += "+" + v.LinkLocalNexthop.String()
-			}
 		case *bgp.PathAttributeMpUnreachNLRI:
 		case *bgp.PathAttributeNextHop:
 			nh = v.Value.Unmap().String()
